@@ -73,8 +73,13 @@ def _gen_hist(rng, code):
         for _ in range(nh):
             if code in (1, 4):
                 nom = [round(rng.uniform(0.5, 20), 3) for _ in range(nb)]
-                hh.append([[round(v * rng.uniform(0.3, 0.99), 4) for v in nom], nom,
-                           [round(v * rng.uniform(1.01, 3.0), 4) for v in nom]])
+                if rng.random() < 0.25:
+                    # variations on the 'wrong' side of the nominal are legal inputs too
+                    hh.append([[round(v * rng.uniform(0.5, 1.6), 4) for v in nom], nom,
+                               [round(v * rng.uniform(0.6, 2.0), 4) for v in nom]])
+                else:
+                    hh.append([[round(v * rng.uniform(0.3, 0.99), 4) for v in nom], nom,
+                               [round(v * rng.uniform(1.01, 3.0), 4) for v in nom]])
             else:
                 nom = [round(rng.uniform(1, 80), 3) for _ in range(nb)]
                 # additive codes: up/down may be on either side of nominal
